@@ -43,7 +43,9 @@ def gen_cases(tier, seed):
             s.pop("_cls")
             shells.append(s)
         ntot = sum(bases.nfunc(s) for s in shells)
-        dm, dcls = bases.rand_sym(rng, ntot, "psd" if i % 2 else "psd-lowrank")
+        # positive semi-definite matrices only: for an indefinite one the library clips (or rejects) the negative densities, as
+        # documented, so that the density no longer integrates to tr(gamma S)
+        dm, dcls = bases.rand_sym(rng, ntot, ["psd-lowrank", "psd", "diag", "psd", "idempotent", "psd"][i % 6])
         offset = [float(v) for v in rng.uniform(0, 1, size=3)]
         extra = []
         if i % 4 == 1:
